@@ -396,7 +396,11 @@ class Node:
                         isinstance(default, bool) or
                         not isinstance(default, (int, float))):
                     return False
-                return bool(Node(value_node).get_value() == default)
+                try:
+                    return bool(Node(value_node).get_value() == default)
+                except RecognitionError:
+                    # tagged as a number but not one: equals no default
+                    return False
 
             if value_node.tag == 'tag:yaml.org,2002:bool':
                 if default is False:
